@@ -226,3 +226,27 @@ Example key_with_mode_as_config_arg_confuses_modes :
   root_key (ANewExecution :: shipped_config_args) a = root_key (ANewExecution :: shipped_config_args) b
   /\ a ANewExecution <> b ANewExecution.
 Proof. split; [reflexivity|discriminate]. Qed.
+
+(* ---------------------------------------------------------------------- *)
+(** * Root wrapping                                                         *)
+(** an expression left unwrapped creates exactly one job under the (stand-in) parent -- what
+    `[job] = parent_job.child_jobs` in extend_run and the root-job bookkeeping of run rely on *)
+Theorem unwrapped_root_is_single_job :
+  forall is_task is_sched lazy,
+    needs_root shipped_root_parts is_task is_sched lazy = false ->
+    is_task = true /\ is_sched = false /\ top_jobs_unwrapped lazy = 1.
+Proof.
+  intros is_task is_sched lazy H. unfold needs_root in H.
+  apply Bool.orb_false_elim in H. destruct H as [H L].
+  apply Bool.orb_false_elim in H. destruct H as [T S0].
+  apply Bool.negb_false_iff in T. repeat split; auto.
+  unfold top_jobs_unwrapped, all_parts. simpl in L. simpl filter.
+  destruct (lazy CArgs), (lazy CKwargs), (lazy CDefaults), (lazy CTaskOptions), (lazy CExprOptions);
+    simpl in *; try discriminate; reflexivity.
+Qed.
+
+Example dropping_call_time_options_leaves_two_top_jobs :
+  let parts := [CArgs; CKwargs; CDefaults; CTaskOptions] in
+  let lazy := fun p => match p with CExprOptions => true | _ => false end in
+  needs_root parts true false lazy = false /\ top_jobs_unwrapped lazy = 2.
+Proof. split; reflexivity. Qed.
